@@ -9,6 +9,7 @@ from __future__ import annotations
 
 import asyncio
 import hashlib
+import os
 import random
 import shutil
 import tempfile
@@ -16,7 +17,7 @@ from pathlib import Path
 
 from ..core import Family
 from ..sim.client_storefault import store_fault
-from .c03 import CERT_FP, CERTS, HOSTS, SHM, Runner, expected_steps, spell, variant_id
+from .c03 import CA_FIRST, CERT_FP, CERTS, HOSTS, SHM, Runner, expected_steps, sem, spell, variant_id
 
 ID = "C11"
 READY = True
@@ -29,6 +30,8 @@ ASSUMPTIONS = [
     "parameters of the model (not verified): the TLS handshake (everything before create_connection returns is asyncio's and OpenSSL's; the ClientHello carries the host name as SNI, which is part of the handshake and outside this property), X.509 parsing, SHA-256, SQLite",
     "the request is modelled as the list of transport.write calls of send_request (one for Gemini, request line + content for Titan); the peers observe the decrypted application byte stream",
     "a peer that never reads is observed by draining its socket after the client has gone: what the client wrote before closing is what sits in the kernel buffers",
+    "clients that also verify the certificate chain (verify_ssl=True together with TOFU) are run against certificates issued by a CA made by the harness, trusted through SSL_CERT_FILE or through an ssl_context handed to the constructor; a chain that verifies is not a pin that matches",
+    "a dropped connection is followed by a queued script of an impostor on the same port: correct code never connects a second time, so the script stays unused",
 ]
 LEVEL_TEXT = ("Lean 4 theorems over a hand-written model of the ordered effect trace of GeminiClient._get_single / upload (connect, verify, trust, "
               "send, await, close), for every store, key, presented certificate and payload, lifted to arbitrary histories and redirect chains; the model "
@@ -47,11 +50,26 @@ MODES = ["eager", "lazy", "never"]
 #               "other-port" = same host name, other port; "other-host" = other host name, same port
 #   chain_same  the redirecting hop is the target's host name on the other port and presents the target's certificate
 #   pin_via     how the pin entered the store: TOFUDatabase.trust, or import_toml with the fingerprint spelled
-#               canonically / "sha256:<HEX>" / "SHA256:<hex>" / "SHA256:<HEX>"
+#               canonically / "sha256:<HEX>" / "SHA256:<hex>" / "SHA256:<HEX>", or "legacy": the store file exists before the
+#               client does, written with plain SQL in the released schema (a store made by an earlier installation)
 #   fault       the pin store fails during the call: "select" (pin lookup raises OperationalError), "locked" (a real
 #               EXCLUSIVE lock held by another connection), "write" (INSERT/UPDATE/commit fail: trust of a first use)
+#   vssl        the client ALSO verifies the chain (GeminiClient(verify_ssl=True, trust_on_first_use=True)): "env" = the context the
+#               client builds itself, the harness CA trusted through SSL_CERT_FILE; "ctx" = an ssl_context (CERT_REQUIRED, host name
+#               check, harness CA loaded) handed to the constructor; "flag" = verify_ssl=True with a caller-made context that does not
+#               verify.  With "env"/"ctx" the peers present CA-issued certificates (indices CA_FIRST..): the impostor's chain is fine
+#   drop        the connection that is (rightly) sent the request is dropped before any answer byte: "close" (FIN), "close_notify",
+#               "reset"; behind it an impostor's script is queued on the same port (another certificate, reads eagerly)
 WARMS = [None, "other-port", "other-host"]
-PIN_VIAS = ["trust", "import", "import-0", "import-1", "import-2"]
+VSSLS = [None, "env", "ctx", "flag"]
+DROPS = [None, "close", "close_notify", "reset"]
+
+
+def other_cert(c: int) -> int:
+    """a different certificate of the same kind (self-signed 0..2 / CA-issued CA_FIRST..)"""
+    return CA_FIRST + (c - CA_FIRST + 1) % 3 if c >= CA_FIRST else (c + 1) % 3
+
+PIN_VIAS = ["trust", "import", "import-0", "import-1", "import-2", "legacy"]
 FAULTS = [None, "select", "locked", "write"]
 
 
@@ -72,7 +90,7 @@ def should_fail(case) -> bool:
 
 class Scenarios(Family):
     name = "scenarios"
-    quick_n = 640
+    quick_n = 760
     thorough_n = 4000
     parallel = True      # every process binds its own ports (port 0) in setup()
 
@@ -86,7 +104,7 @@ class Scenarios(Family):
 
         def extra(sit, op):
             """the further dimensions, compatible with the situation"""
-            d = {"warm": None, "chain_same": False, "pin_via": "trust", "fault": None}
+            d = {"warm": None, "chain_same": False, "pin_via": "trust", "fault": None, "vssl": None, "drop": None}
             r = rng.random()
             if r < 0.25:
                 d["warm"] = rng.choice(WARMS[1:])
@@ -96,7 +114,21 @@ class Scenarios(Family):
                 d["pin_via"] = rng.choice(PIN_VIAS[1:])
             if rng.random() < 0.2:
                 d["fault"] = rng.choice(["select", "locked"]) if sit != "unpinned" or rng.random() < 0.6 else "write"
+            if rng.random() < 0.3:
+                d["vssl"] = rng.choice(VSSLS[1:])
+                if d["vssl"] in ("env", "ctx"):
+                    d["cert"] = CA_FIRST + rng.randrange(3)          # overrides the case's certificate
+                    if d["pin_via"].startswith("import-"):
+                        d["pin_via"] = "import"                      # the CA-issued certificates have no spelled variants
+            if sit in ("unpinned", "pinned") and not d["fault"] and rng.random() < 0.3:
+                d["drop"] = rng.choice(DROPS[1:])
             return d
+
+        def fix(c):
+            # a self-signed certificate the parser rejects cannot complete a handshake that verifies the chain
+            if c.get("vssl") in ("env", "ctx") and c["situation"] == "hostile":
+                c["situation"] = "patched-raise"
+            return c
 
         # deterministic witness grid of the further dimensions (shared out over the shards, never cut)
         wit = []
@@ -110,10 +142,21 @@ class Scenarios(Family):
                 for sit in ("unpinned", "pinned", "changed"):
                     wit.append({"situation": sit, "op": op, "fault": fault})
             wit.append({"situation": "unpinned", "op": op, "fault": "write"})
+        for op in ("get", "getq", "upload", "delete", "chain"):
+            for vssl in VSSLS[1:]:
+                for sit in ("unpinned", "pinned", "changed", "changed-after-ok", "patched-none"):
+                    w = {"situation": sit, "op": op, "vssl": vssl}
+                    if vssl != "flag":
+                        w["cert"] = CA_FIRST + (len(wit) % 3)
+                    wit.append(w)
+            for drop in DROPS[1:]:
+                for sit in ("unpinned", "pinned"):
+                    wit.append({"situation": sit, "op": op, "drop": drop})
         for i, wcase in enumerate(self.share(wit)):
             count += 1
             base = {"tofu": True, "mode": MODES[i % 3], "cert": [0, 1, 2, 4, 5][i % 5], "size": 1000 if wcase["op"] == "upload" else 0,
-                    "token": "s3cr3t-token", "host": i % 3, "cseed": i, "warm": None, "chain_same": False, "pin_via": "trust", "fault": None}
+                    "token": "s3cr3t-token", "host": i % 3, "cseed": i, "warm": None, "chain_same": False, "pin_via": "trust", "fault": None,
+                    "vssl": None, "drop": None}
             base.update(wcase)
             yield base
         # systematic part: situation x operation x reading mode, a different random half of the grid in every shard
@@ -124,7 +167,7 @@ class Scenarios(Family):
             c = {"tofu": True, "situation": sit, "op": op, "mode": mode, "cert": rng.choice([0, 1, 2, 4, 5]), "size": rng.choice(sizes[1:5]) if op == "upload" else 0,
                  "token": "s3cr3t-token", "host": rng.randrange(3), "cseed": rng.randrange(1000)}
             c.update(extra(sit, op))
-            yield c
+            yield fix(c)
         while count < n:
             count += 1
             op = rng.choice(OPS)
@@ -135,7 +178,7 @@ class Scenarios(Family):
             c = {"tofu": rng.random() < 0.93, "situation": sit, "op": op, "mode": rng.choice(MODES), "cert": rng.choice([0, 1, 2, 4, 5]),
                  "size": sz, "token": rng.choice([None, "tok", "s3cr3t-" + "x" * rng.randrange(0, 40)]), "host": rng.randrange(3), "cseed": rng.randrange(1000)}
             c.update(extra(sit, op))
-            yield c
+            yield fix(c)
 
     # what the peer should receive if (and only if) verification passes -- straight from the protocol definitions
     def request_bytes(self, case, url: str, kind: str) -> bytes:
@@ -173,7 +216,7 @@ class Scenarios(Family):
         elif sit == "changed-after-ok" or not self.prepinned_other(case):
             return None
         else:
-            pc = (case["cert"] + 1) % 3
+            pc = other_cert(case["cert"])
         via = case.get("pin_via", "trust")
         return pc, (variant_id(pc, int(via[-1])) if via.startswith("import-") else CERT_FP[pc])
 
@@ -194,7 +237,7 @@ class Scenarios(Family):
             if case.get("chain_same"):
                 # the redirecting hop is the SAME host name on the other port and shows the certificate the target will show
                 return [[case["host"], 0, case["cert"], ""], [target[0], target[1], target[2], ""]], patch
-            return [[(case["host"] + 1) % 3, 0, (case["cert"] + 1) % 3, ""], [target[0], target[1], target[2], ""]], patch
+            return [[(case["host"] + 1) % 3, 0, other_cert(case["cert"]), ""], [target[0], target[1], target[2], ""]], patch
         return [target], patch
 
     def impl(self, case):
@@ -210,22 +253,80 @@ class Scenarios(Family):
         query = "?q=secret%20query&token=T" if case["op"] == "getq" else ""
         mode = case["mode"]
 
+        drop = case.get("drop")
+
         def steps_for(i, reply):
             tail = [["close"]] if reply[:1] == b"2" else [["read_eof", 2.0], ["close"]]
+            if drop and i == len(hops) - 1:
+                # the connection that is sent the request goes away without a byte of answer
+                if mode == "never":
+                    return [["sleep", 0.25], ["drain"], [drop]]
+                return ([["sleep", 0.08]] if mode == "lazy" else []) + [["read_request", 3.0], [drop]]
             if mode == "never" and i == len(hops) - 1:
                 return [["sleep", 0.4], ["drain"], ["close"]]
             pre = [["sleep", 0.08]] if mode == "lazy" else []
             return pre + [["read_request", 3.0], ["send", reply]] + tail
 
+        # what the port would show to one more connection: an impostor with another certificate that reads at once
+        extra_scripts = []
+        if drop:
+            extra_scripts.append((target[1], other_cert(target[2]), [["read_request", 1.5], ["send", b"20 text/gemini\r\nimpostor\n"], ["close"]]))
+
+        def mk_client():
+            kw = {}
+            vssl = case.get("vssl")
+            if vssl:
+                kw["verify_ssl"] = True
+            if vssl == "ctx":
+                import ssl
+
+                from nauyaca.security.tls import create_client_context
+
+                ctx = create_client_context(verify_mode=ssl.CERT_REQUIRED, check_hostname=True)
+                ctx.load_verify_locations(cadata=R.pki["ca_pem"])
+                kw["ssl_context"] = ctx
+            elif vssl == "flag":
+                import ssl
+
+                from nauyaca.security.tls import create_client_context
+
+                kw["ssl_context"] = create_client_context(verify_mode=ssl.CERT_NONE, check_hostname=False)
+            if vssl != "env":
+                return GeminiClient(timeout=5.0, trust_on_first_use=case["tofu"], tofu_db_path=db if case["tofu"] else None, **kw)
+            # the context the client builds itself (ssl.create_default_context) picks the CA up from the environment
+            saved = {k: os.environ.get(k) for k in ("SSL_CERT_FILE", "SSL_CERT_DIR")}
+            os.environ["SSL_CERT_FILE"] = R.pki["ca_file"]
+            os.environ.pop("SSL_CERT_DIR", None)
+            try:
+                return GeminiClient(timeout=5.0, trust_on_first_use=case["tofu"], tofu_db_path=db if case["tofu"] else None, **kw)
+            finally:
+                for k, v in saved.items():
+                    if v is None:
+                        os.environ.pop(k, None)
+                    else:
+                        os.environ[k] = v
+
         async def run():
             asyncio.get_running_loop().set_exception_handler(lambda loop, ctx: None)
-            tdb = TOFUDatabase(db)
             sit = case["situation"]
             pin = self.pin_id(case)
+            if pin is not None and case.get("pin_via") == "legacy":
+                import sqlite3
+
+                conn = sqlite3.connect(str(db))
+                conn.execute("CREATE TABLE known_hosts (hostname TEXT NOT NULL, port INTEGER NOT NULL, fingerprint TEXT NOT NULL, "
+                             "first_seen TEXT NOT NULL, last_seen TEXT NOT NULL, PRIMARY KEY (hostname, port))")
+                conn.execute("INSERT INTO known_hosts VALUES (?, ?, ?, ?, ?)", (HOSTS[target[0]], R.ports[target[1]], R.fps[pin[1]],
+                                                                               "2025-01-01T00:00:00+00:00", "2025-06-01T00:00:00+00:00"))
+                conn.commit()
+                conn.close()
+            tdb = TOFUDatabase(db)
             if pin is not None:
                 # "pinned": to the certificate that will be presented; changed / half of the unreadable ones: to ANOTHER one
                 via = case.get("pin_via", "trust")
-                if via == "trust":
+                if via == "legacy":
+                    pass
+                elif via == "trust":
                     tdb.trust(HOSTS[target[0]], R.ports[target[1]], R.w["certs"].x509(CERTS[pin[0]]))
                 else:
                     import tomli_w
@@ -234,9 +335,9 @@ class Scenarios(Family):
                     f.write_bytes(tomli_w.dumps({"hosts": {"e0": {"hostname": HOSTS[target[0]], "port": R.ports[target[1]], "fingerprint": R.fps[pin[1]],
                                                                   "first_seen": "2026-01-01T00:00:00+00:00", "last_seen": "2026-01-01T00:00:00+00:00"}}}).encode())
                     assert tdb.import_toml(f) == (1, 0, 0)
-            client = GeminiClient(timeout=5.0, trust_on_first_use=case["tofu"], tofu_db_path=db if case["tofu"] else None)
+            client = mk_client()
             if sit == "changed-after-ok":
-                other = (case["cert"] + 1) % 3
+                other = other_cert(case["cert"])
                 first, _ = await R.call(client, "get", [[target[0], target[1], other, ""]])
                 R.take_logs()
                 if case["tofu"]:
@@ -263,7 +364,8 @@ class Scenarios(Family):
             one = [list(h) for h in hops]
             if len(one) == 1:
                 one[0][3] = patch
-            return await R.call(client, kind, one, content=content_of(case), token=case["token"], query=query, steps_for=steps_for)
+            return await R.call(client, kind, one, content=content_of(case), token=case["token"], query=query, steps_for=steps_for,
+                                extra_scripts=extra_scripts)
 
         try:
             res, url = R.run(run())
@@ -272,6 +374,9 @@ class Scenarios(Family):
             shutil.rmtree(tmp, ignore_errors=True)
         peers = []
         for j, e in enumerate(logs):
+            if j >= len(hops):
+                # a connection the call had no reason to make: if it carries anything, it would be the target's request again
+                j = len(hops) - 1
             if j < len(hops) - 1:
                 want = (R.url(hops[j][0], hops[j][1], f"/hop{j}") + "\r\n").encode()
             else:
@@ -279,7 +384,7 @@ class Scenarios(Family):
                 want = self.request_bytes(case, u, kind)
             rx = e["rx"]
             peers.append({"len": len(rx), "equal": rx == want, "prefix": want.startswith(rx), "want_len": len(want),
-                          "head": rx[:96].decode("latin-1"), "hs": e["hs"], "cert": e["cert"]})
+                          "head": rx[:96].decode("latin-1"), "hs": e["hs"], "cert": e["cert"], "port": R.pid(e["port"])})
         return {"result": res, "peers": peers}
 
     async def chain_with_patch(self, client, hops, patch, steps_for):
@@ -319,7 +424,7 @@ class Scenarios(Family):
         if pin is not None:
             rows[(t[0], t[1])] = pin[1]
         elif sit == "changed-after-ok":
-            rows[(t[0], t[1])] = CERT_FP[(case["cert"] + 1) % 3]
+            rows[(t[0], t[1])] = CERT_FP[other_cert(case["cert"])]
         wk = self.warm_key(case)
         if wk is not None:
             rows[wk] = CERT_FP[case["cert"]]
@@ -373,7 +478,8 @@ class Scenarios(Family):
         if should_fail(case):
             if len(peers) == n_hops and last["len"] > 0:
                 return ("bytes-before-verification",
-                        f"{case['situation']} certificate, {case['op']} ({case['mode']} peer): verification cannot pass, yet the peer received {last['len']} application bytes beginning {last['head'][:70]!r}")
+                        f"{case['situation']} certificate, {case['op']} ({case['mode']} peer; pin entered the store via {case.get('pin_via', 'trust')}; client also verifies the chain (verify_ssl=True): {case.get('vssl') or 'no'}): "
+                        f"verification cannot pass, yet the peer received {last['len']} application bytes beginning {last['head'][:70]!r}")
             if res[0] == "ok":
                 return ("unverified-peer-answered", f"{case['situation']} certificate: the call returned a response {res}")
         else:
@@ -387,10 +493,37 @@ class Scenarios(Family):
         # a redirect hop: the first peer must only ever see its own request line
         if n_hops == 2 and peers and not peers[0]["equal"] and peers[0]["len"] > 0 and not peers[0]["prefix"]:
             return ("request-garbled", f"hop 0 received something that is not its request: {peers[0]['head'][:70]!r}")
+        return self.oracle_connections(case, obs)
+
+    def oracle_connections(self, case, obs):
+        """the property, connection by connection: EVERY connection the call made to the target host:port - also one it
+        made after the first was dropped - is a peer that must have passed the pin check before it is sent anything.
+        The pin in force is known from the history: the one stored before the call, or the certificate the call itself
+        pinned on first use."""
+        sit = case["situation"]
+        if not case["tofu"] or case.get("fault") or sit in ("hostile", "patched-raise", "patched-none"):
+            return None        # unreadable certificates and store faults: the clauses above
+        n_hops = 2 if case["op"] == "chain" else 1
+        pin = self.pin_id(case)
+        pin_fp = sem(pin[1]) if pin is not None else None
+        if sit == "changed-after-ok":
+            pin_fp = CERT_FP[other_cert(case["cert"])]
+        for idx, p in enumerate(q for q in obs["peers"][n_hops - 1:] if q.get("port", 1) == 1):
+            if p["cert"] not in CERTS or not p["hs"]:
+                continue
+            pres = CERT_FP[CERTS.index(p["cert"])]
+            if pin_fp is None:
+                pin_fp = pres          # first use: this connection's certificate is the pin from now on
+                continue
+            if pres != pin_fp and p["len"] > 0:
+                return ("bytes-to-peer-with-other-certificate",
+                        f"{case['op']} to a host:port whose pin is fingerprint {pin_fp} ({sit}; verify_ssl/CA: {case.get('vssl')}; first connection dropped: {case.get('drop')}): "
+                        f"connection {idx + 1} of the call to that port presented certificate {p['cert']!r} (fingerprint {pres}) and received "
+                        f"{p['len']} application bytes beginning {p['head'][:70]!r}; the call ended with {obs['result']}")
         return None
 
     def key(self, case, obs):
-        dims = "".join(f" {k}={case[k]}" for k in ("warm", "pin_via", "fault") if case.get(k) and case.get(k) != "trust") + (" chain_same" if case.get("chain_same") and case["op"] == "chain" else "")
+        dims = "".join(f" {k}={case[k]}" for k in ("warm", "pin_via", "fault", "vssl", "drop") if case.get(k) and case.get(k) != "trust") + (" chain_same" if case.get("chain_same") and case["op"] == "chain" else "")
         return f"{'on' if case['tofu'] else 'off'} {case['situation']} {case['op']} {case['mode'] if not dims else ''}{dims} -> {obs['result'][0]} rx={[min(p['len'], 1) for p in obs['peers']]}"
 
 
